@@ -438,6 +438,23 @@ impl<'a, T: Read + Write + Seek> PointCloudWriter<'a, T> {
                 ))?
             }
 
+            // Ensure that integer values are inside the range of the prototype entry,
+            // otherwise they cannot be stored with the bit size of that range
+            let in_range = match (&p.data_type, value) {
+                (RecordDataType::ScaledInteger { min, max, .. }, RecordValue::ScaledInteger(v)) => {
+                    min <= v && v <= max
+                }
+                (RecordDataType::Integer { min, max }, RecordValue::Integer(v)) => {
+                    min <= v && v <= max
+                }
+                _ => true,
+            };
+            if !in_range {
+                Error::invalid(format!(
+                    "Value at index {i} is outside of the min/max range of the prototype"
+                ))?
+            }
+
             // Update cartesian bounds
             if p.name == RecordName::CartesianX
                 || p.name == RecordName::CartesianY
